@@ -278,7 +278,7 @@ func (ex *Exec) resetPath() {
 	ex.mapSeq = 0
 	ex.syncMaps = nil
 	ex.locks, ex.guards, ex.guardedMaps = nil, nil, nil
-	ex.luaLI = nil
+	ex.luaLI, ex.pools = nil, nil
 	ex.globals = map[*ssa.Global]*Cell{}
 	ex.nondets = nil
 	ex.occ = map[string]int{}
